@@ -43,6 +43,11 @@ def run(sc):
             lst.clear()
             for t in tags:
                 lst.append(ns["_E"](t))
+        # ... or replace one element by a new object (l[j] = obj)
+        for li, j, t in (sc.get("assigns") or {}).get(str(k), []):
+            lst = getattr(o, "l%d" % li)
+            if j < len(lst):
+                lst[j] = ns["_E"](t)
         try:
             o.randomize()
             rec["outcome"] = "ok"
@@ -62,6 +67,12 @@ def run(sc):
                 v["index"] = [[int(lst[j].a), int(lst[j].b), int(lst[j].tag)] for j in range(min(v["len"], 64))]
             except Exception as e:  # noqa
                 v["index"] = "exc:" + type(e).__name__
+            try:
+                # the list's model refers to the models of exactly the objects it exposes
+                m = lst.get_model()
+                v["model_ok"] = all(m.field_l[j] is lst[j].get_model() for j in range(min(v["len"], len(m.field_l))))
+            except Exception as e:  # noqa
+                v["model_ok"] = "exc:" + type(e).__name__
             views.append(v)
         rec["views"] = views
         out.append(rec)
